@@ -32,6 +32,7 @@ type FanOpts struct {
 	MaxShard  int64
 	Batches   int
 	KillOne   bool
+	Wide      bool // 90-id universe, update requests of 40-100 points
 	Exe       string
 	KillAfter int // batch index after which the child is killed
 }
@@ -48,6 +49,7 @@ type fan struct {
 	down    int // index (1-based) of the server that is down, 0 = none
 	userSrv int
 	onSrv   map[int]int // id -> server of the shard that held it at the last placement
+	wide    bool        // 90 ids, large update requests
 }
 
 func (f *fan) entry() *cluster.ClusterNode { return f.nodes[f.r.Intn(len(f.nodes))] }
@@ -141,7 +143,11 @@ func (f *fan) points(ids []int, forUpdate bool) ([]models.Point, []M) {
 
 func (f *fan) insert() {
 	var ids []int
-	for _, id := range f.pick(1+f.r.Intn(9), 0) {
+	nins := 1 + f.r.Intn(9)
+	if f.wide {
+		nins = 20 + f.r.Intn(40)
+	}
+	for _, id := range f.pick(nins, 0) {
 		if !f.live[id] { // ids are unique per collection, as the API requires
 			ids = append(ids, id)
 		}
@@ -196,7 +202,14 @@ func b2i(b bool) int {
 	return 0
 }
 
-func (f *fan) update() { f.updateVia(f.entry(), f.pick(1+f.r.Intn(6), 0.7)) }
+func (f *fan) update() {
+	n := 1 + f.r.Intn(6)
+	if f.wide {
+		// many points in request order (not id order) for every shard of the entry node at once
+		n = 40 + f.r.Intn(60)
+	}
+	f.updateVia(f.entry(), f.pick(n, 0.7))
+}
 
 func (f *fan) updateVia(n *cluster.ClusterNode, ids []int) {
 	pts, abs := f.points(ids, true)
@@ -347,12 +360,15 @@ func RunFanout(histNo int, seed int64, root string, tw *trace.Writer, o FanOpts)
 	os.RemoveAll(dir)
 	defer os.RemoveAll(dir)
 	r := rand.New(rand.NewSource(seed))
+	if o.Wide {
+		FanCfg.NIDs = 90
+	}
 	ports := FreePorts(o.Servers)
 	names := make([]string, o.Servers)
 	for i, p := range ports {
 		names[i] = ServerName(p)
 	}
-	f := &fan{r: r, g: &sd.Gen{R: r, Cfg: FanCfg}, tw: tw, names: names, live: map[int]bool{}, onSrv: map[int]int{}}
+	f := &fan{r: r, g: &sd.Gen{R: r, Cfg: FanCfg}, tw: tw, names: names, live: map[int]bool{}, onSrv: map[int]int{}, wide: o.Wide}
 	inproc := o.Servers
 	if o.KillOne {
 		inproc = o.Servers - 1
